@@ -98,6 +98,10 @@ func glyphName(p, i, j int) cm.Value {
 	if (i+j)%3 == 2 {
 		return cm.Name(fmt.Sprintf("uni%04X", 0x4E00+16*p+i+j))
 	}
+	if (i+j)%5 == 3 {
+		// a name is a sequence of bytes, not of characters
+		return cm.Name(fmt.Sprintf("g\xe9\xff%d.%d.\x80", p, i))
+	}
 	return cm.Name(fmt.Sprintf("g%d.%d.%d", p, i, j))
 }
 
@@ -171,7 +175,7 @@ const numHeaders = 4
 func baseCMap(hv int) cm.CMap {
 	switch hv {
 	case 1:
-		return cm.CMap{Name: "A", Registry: "X", Ordering: "Identity", Supplement: 7, Type: 2, WMode: 1}
+		return cm.CMap{Name: "A\xc4", Registry: "X", Ordering: "Identity", Supplement: 7, Type: 2, WMode: 1}
 	case 2:
 		return cm.CMap{Name: "Zed-UCS2", Registry: "Adobe", Ordering: "UCS", Supplement: 65535, Type: 0, WMode: 1}
 	case 3:
